@@ -65,6 +65,7 @@ fn real_main() {
 			}
 		},
 		"c15-child" => props::c15::child_main(),
+		#[cfg(feature = "crypto")]
 		"c19-child" => props::c19::child_main(),
 		"c16-child" => props::c16::child_main(),
 		"list" => {
